@@ -217,8 +217,42 @@ func c15Lifecycle(level int) ([]Finding, []interface{}) {
 					}
 				}
 				// first callback: the first tick, rounds 1-14, 30-44 and 60; second callback: rounds 15-29 and 45-59
-				if problem == "" && (evicted != 1+14+15+1 || evicted2 != 15+15) {
-					problem = fmt.Sprintf("callbacks in force were told %d and %d evictions, want 31 and 30", evicted, evicted2)
+				// an idle life: the cache stays empty for 20 ticks; the janitor must not drift away from its interval
+				// (a period beyond 16 intervals is not "within a bounded number of intervals" any more), and the
+				// first entry that expires afterwards is cleaned by the next tick
+				if problem == "" {
+					c.Delete(1)
+					for idle := 1; idle <= 20 && problem == ""; idle++ {
+						cur := tk[0]
+						if all := vtime.VCaptured(); len(all) > 0 {
+							cur = all[len(all)-1]
+						}
+						if cur.Stopped() || !cur.Fire(20*time.Second) || !waitJanitorsIdle() {
+							problem = fmt.Sprintf("the janitor stopped taking ticks after %d idle ticks", idle)
+						}
+						if all := vtime.VCaptured(); len(all) > 0 {
+							cur = all[len(all)-1]
+						}
+						if problem == "" && (cur.Period <= 0 || cur.Period > 16*time.Second) {
+							problem = fmt.Sprintf("after %d idle ticks the janitor waits %v between passes (configured interval 1s)", idle, cur.Period)
+						}
+					}
+					if problem == "" {
+						before := evicted + evicted2
+						c.Set(0, 99, 1)
+						vtime.VAdvance(2)
+						cur := tk[0]
+						if all := vtime.VCaptured(); len(all) > 0 {
+							cur = all[len(all)-1]
+						}
+						if !cur.Fire(20*time.Second) || !waitJanitorsIdle() || c.Count() != 0 || evicted+evicted2 != before+1 {
+							problem = fmt.Sprintf("after an idle period the next tick did not clean: Count=%d, callbacks %d (want %d)", c.Count(), evicted+evicted2, before+1)
+						}
+					}
+				}
+				// (plus, for the first callback, the Delete that emptied the cache and the entry of the idle phase)
+				if problem == "" && (evicted != 1+14+15+1+1+1 || evicted2 != 15+15) {
+					problem = fmt.Sprintf("callbacks in force were told %d and %d evictions, want 33 and 30", evicted, evicted2)
 				}
 			}
 			samples = append(samples, map[string]interface{}{"alive_after_gc": cfg.String(), "problem": problem})
@@ -227,6 +261,54 @@ func c15Lifecycle(level int) ([]Finding, []interface{}) {
 					Detail: fmt.Sprintf("%s held across 5 GC cycles: %s", cfg, problem), Replay: map[string]interface{}{"engine": "C15"}})
 			}
 			runtime.KeepAlive(c)
+		}
+	}
+	// a cache dropped while its janitor is in the middle of a pass (held inside the evicted callback): once the
+	// callback returns the janitor must still stop
+	for twin := 0; twin < 2; twin++ {
+		runtime.GC()
+		base := runtime.NumGoroutine()
+		vtime.VEnable(epochNs)
+		vtime.VCaptureTickers(true)
+		gate := make(chan struct{})
+		entered := make(chan struct{}, 4)
+		func() {
+			c := newCache(CacheCfg{Twin: twin, HasIvl: true, Ivl: time.Second, Callback: func(k, v int) {
+				entered <- struct{}{}
+				<-gate
+			}})
+			waitJanitorsIdle()
+			c.Set(0, 1, 1)
+			vtime.VAdvance(2)
+		}()
+		tk := vtime.VCaptured()
+		problem := ""
+		if len(tk) != 1 || !tk[0].Fire(20*time.Second) {
+			problem = "the janitor did not take a tick"
+		} else {
+			<-entered // the janitor is inside the callback now, and nobody references the cache any more
+			for i := 0; i < 30; i++ {
+				runtime.GC()
+				time.Sleep(5 * time.Millisecond)
+			}
+			close(gate)
+			iters := 0
+			for ; iters < 200; iters++ {
+				if tk[0].Stopped() && runtime.NumGoroutine() <= base {
+					break
+				}
+				runtime.GC()
+				runtime.Gosched()
+				time.Sleep(time.Millisecond)
+			}
+			if !tk[0].Stopped() || runtime.NumGoroutine() > base {
+				problem = fmt.Sprintf("ticker stopped=%v, goroutines %d -> %d after %d GC rounds", tk[0].Stopped(), base, runtime.NumGoroutine(), iters)
+			}
+		}
+		samples = append(samples, map[string]interface{}{"dropped_mid_pass": twinNames[twin], "problem": problem})
+		if problem != "" {
+			fs = append(fs, Finding{Property: "C15", Signature: fmt.Sprintf("life cycle: janitor of a %s dropped in the middle of a cleanup pass does not stop", twinNames[twin]),
+				Detail: problem, Replay: map[string]interface{}{"engine": "C15"}})
 		}
 	}
 	vtime.VCaptureTickers(false)
